@@ -158,9 +158,11 @@ def build_dag(case, maxc=1, is_async=False, mk=None, attrs=None):
 
     desc.__qualname__ = "gdesc"
     desc.__name__ = "gdesc"
+    import inspect
     if viol is not None and viol["how"] == "param":
-        import inspect
         desc.__signature__ = inspect.Signature([inspect.Parameter("p0", inspect.Parameter.POSITIONAL_OR_KEYWORD)])
+    else:
+        desc.__signature__ = inspect.Signature([])
     d = tawazi.dag(desc, max_concurrency=maxc, is_async=is_async)
     return d, fs
 
